@@ -7,6 +7,7 @@ Line-protocol driver for C09 (one output line per input line).
 ```
 run <head>                     → ok <score> | ERR:<Exc>     score of the heuristic from the executable model
 so  <head>                     → ok <score> | ERR:<Exc>     the score_only code path (gapped / ungapped)
+abf <head>                     → ok <optAffAbutFree> <optAff .semi>   (affine semi-global cases; Python: independent recursion)
 chk <head> <score> <traces>    → ok n=<n> sound=<k> abutfree=<c>   `checkResult` on every returned trace; c = traces in class `affAbutFree`
 ```
 gap `L:<g>` or `A:<open>:<ext>`; code lists with `_` = empty; matrix row-major with `k2` columns; a trace is
@@ -86,7 +87,19 @@ def showExc (r : Except Err Int) : String :=
 
 def heurScore (scoreOnly : Bool) (h : Head) : String :=
   match h.kind, h.band, h.seed with
-  | "b", some band, _ => showExc (bandedScore h.a h.b h.M h.minScore h.gap (h.mode == .local) band h.maxNumber)
+  | "b", some band, _ =>
+    let r := bandedScore h.a h.b h.M h.minScore h.gap (h.mode == .local) band h.maxNumber
+    -- full band + affine + semi-global (no sentinel underflow): the model's value must be `optAffAbutFree`
+    -- (clause (a) of the full-band statement, checked on every such case; proved only on witnesses)
+    let n : Int := h.a.length
+    let m : Int := h.b.length
+    let fullAff : Bool := match h.gap, r with
+      | .aff go ge, .ok v =>
+        h.mode == .semi && decide (0 < n) && decide (0 < m) && !(underflowRisk go ge h.minScore)
+          && decide (min band.1 band.2 ≤ 1 - n) && decide (m - 1 ≤ max band.1 band.2)
+          && (max 0 v != optAffAbutFreeT h.M go ge h.a h.b)
+      | _, _ => false
+    if fullAff then showExc r ++ " fullband-differs-from-optAffAbutFree" else showExc r
   | "g", _, some seed =>
     showExc (gappedScore scoreOnly h.a h.b h.M h.gap seed h.thr h.dir h.maxNumber h.mts
       Gen.C09.initSize Gen.C09.initOffset Gen.C09.growFactor)
@@ -103,6 +116,13 @@ def step (_ : Unit) (line : String) : Unit × String :=
     | "so" :: rest =>
       match parseHead rest with
       | some h => heurScore true h
+      | none => "bad-op"
+    | "abf" :: rest =>
+      -- the abutting-allowed affine semi-global optimum (specification recursion, read off its table)
+      match parseHead rest with
+      | some h => (match h.gap with
+        | .aff go ge => s!"ok {optAffAbutFreeT h.M go ge h.a h.b} {optT .semi h.gap h.M h.a h.b}"
+        | .lin _ => "bad-op")
       | none => "bad-op"
     | "chk" :: rest =>
       match parseHead (rest.take 13), rest.drop 13 with
